@@ -978,3 +978,78 @@ package ro
 //@   on complete@obsA(ctx) when status + 1 != 2 : emits ; post status' == status + 1
 //@   on complete@obsB(ctx) when status + 1 == 2 : emits Complete(ctx) ; post status' == status + 1
 //@   on complete@obsB(ctx) when status + 1 != 2 : emits ; post status' == status + 1
+
+//@ operator CombineLatestWith2
+//@   props C04 C05
+//@   note as CombineLatestWith1 over 3 sources: status counts completed sources, 3 = done, 4 = failed
+//@   inline (*Pointer).Load (*Pointer).Store
+//@   on next@obsA(ctx, v) when status < 3 && valueB.p.v != nil && valueC.p.v != nil : emits Next(ctx, fields(v, deref(valueB.p.v), deref(valueC.p.v)))
+//@   on next@obsA(ctx, v) when status >= 3 || valueB.p.v == nil || valueC.p.v == nil : emits
+//@   on error@obsA(ctx, err) : emits Error(ctx, err) ; post status' == 4
+//@   on complete@obsA(ctx) when status + 1 == 3 : emits Complete(ctx) ; post status' == status + 1
+//@   on complete@obsA(ctx) when status + 1 != 3 : emits ; post status' == status + 1
+//@   on next@obsB(ctx, v) when status < 3 && valueA.p.v != nil && valueC.p.v != nil : emits Next(ctx, fields(deref(valueA.p.v), v, deref(valueC.p.v)))
+//@   on next@obsB(ctx, v) when status >= 3 || valueA.p.v == nil || valueC.p.v == nil : emits
+//@   on error@obsB(ctx, err) : emits Error(ctx, err) ; post status' == 4
+//@   on complete@obsB(ctx) when status + 1 == 3 : emits Complete(ctx) ; post status' == status + 1
+//@   on complete@obsB(ctx) when status + 1 != 3 : emits ; post status' == status + 1
+//@   on next@obsC(ctx, v) when status < 3 && valueA.p.v != nil && valueB.p.v != nil : emits Next(ctx, fields(deref(valueA.p.v), deref(valueB.p.v), v))
+//@   on next@obsC(ctx, v) when status >= 3 || valueA.p.v == nil || valueB.p.v == nil : emits
+//@   on error@obsC(ctx, err) : emits Error(ctx, err) ; post status' == 4
+//@   on complete@obsC(ctx) when status + 1 == 3 : emits Complete(ctx) ; post status' == status + 1
+//@   on complete@obsC(ctx) when status + 1 != 3 : emits ; post status' == status + 1
+
+//@ operator CombineLatestWith3
+//@   props C04 C05
+//@   note as CombineLatestWith1 over 4 sources: status counts completed sources, 4 = done, 5 = failed
+//@   inline (*Pointer).Load (*Pointer).Store
+//@   on next@obsA(ctx, v) when status < 4 && valueB.p.v != nil && valueC.p.v != nil && valueD.p.v != nil : emits Next(ctx, fields(v, deref(valueB.p.v), deref(valueC.p.v), deref(valueD.p.v)))
+//@   on next@obsA(ctx, v) when status >= 4 || valueB.p.v == nil || valueC.p.v == nil || valueD.p.v == nil : emits
+//@   on error@obsA(ctx, err) : emits Error(ctx, err) ; post status' == 5
+//@   on complete@obsA(ctx) when status + 1 == 4 : emits Complete(ctx) ; post status' == status + 1
+//@   on complete@obsA(ctx) when status + 1 != 4 : emits ; post status' == status + 1
+//@   on next@obsB(ctx, v) when status < 4 && valueA.p.v != nil && valueC.p.v != nil && valueD.p.v != nil : emits Next(ctx, fields(deref(valueA.p.v), v, deref(valueC.p.v), deref(valueD.p.v)))
+//@   on next@obsB(ctx, v) when status >= 4 || valueA.p.v == nil || valueC.p.v == nil || valueD.p.v == nil : emits
+//@   on error@obsB(ctx, err) : emits Error(ctx, err) ; post status' == 5
+//@   on complete@obsB(ctx) when status + 1 == 4 : emits Complete(ctx) ; post status' == status + 1
+//@   on complete@obsB(ctx) when status + 1 != 4 : emits ; post status' == status + 1
+//@   on next@obsC(ctx, v) when status < 4 && valueA.p.v != nil && valueB.p.v != nil && valueD.p.v != nil : emits Next(ctx, fields(deref(valueA.p.v), deref(valueB.p.v), v, deref(valueD.p.v)))
+//@   on next@obsC(ctx, v) when status >= 4 || valueA.p.v == nil || valueB.p.v == nil || valueD.p.v == nil : emits
+//@   on error@obsC(ctx, err) : emits Error(ctx, err) ; post status' == 5
+//@   on complete@obsC(ctx) when status + 1 == 4 : emits Complete(ctx) ; post status' == status + 1
+//@   on complete@obsC(ctx) when status + 1 != 4 : emits ; post status' == status + 1
+//@   on next@obsD(ctx, v) when status < 4 && valueA.p.v != nil && valueB.p.v != nil && valueC.p.v != nil : emits Next(ctx, fields(deref(valueA.p.v), deref(valueB.p.v), deref(valueC.p.v), v))
+//@   on next@obsD(ctx, v) when status >= 4 || valueA.p.v == nil || valueB.p.v == nil || valueC.p.v == nil : emits
+//@   on error@obsD(ctx, err) : emits Error(ctx, err) ; post status' == 5
+//@   on complete@obsD(ctx) when status + 1 == 4 : emits Complete(ctx) ; post status' == status + 1
+//@   on complete@obsD(ctx) when status + 1 != 4 : emits ; post status' == status + 1
+
+//@ operator CombineLatestWith4
+//@   props C04 C05
+//@   note as CombineLatestWith1 over 5 sources: status counts completed sources, 5 = done, 6 = failed
+//@   inline (*Pointer).Load (*Pointer).Store
+//@   on next@obsA(ctx, v) when status < 5 && valueB.p.v != nil && valueC.p.v != nil && valueD.p.v != nil && valueE.p.v != nil : emits Next(ctx, fields(v, deref(valueB.p.v), deref(valueC.p.v), deref(valueD.p.v), deref(valueE.p.v)))
+//@   on next@obsA(ctx, v) when status >= 5 || valueB.p.v == nil || valueC.p.v == nil || valueD.p.v == nil || valueE.p.v == nil : emits
+//@   on error@obsA(ctx, err) : emits Error(ctx, err) ; post status' == 6
+//@   on complete@obsA(ctx) when status + 1 == 5 : emits Complete(ctx) ; post status' == status + 1
+//@   on complete@obsA(ctx) when status + 1 != 5 : emits ; post status' == status + 1
+//@   on next@obsB(ctx, v) when status < 5 && valueA.p.v != nil && valueC.p.v != nil && valueD.p.v != nil && valueE.p.v != nil : emits Next(ctx, fields(deref(valueA.p.v), v, deref(valueC.p.v), deref(valueD.p.v), deref(valueE.p.v)))
+//@   on next@obsB(ctx, v) when status >= 5 || valueA.p.v == nil || valueC.p.v == nil || valueD.p.v == nil || valueE.p.v == nil : emits
+//@   on error@obsB(ctx, err) : emits Error(ctx, err) ; post status' == 6
+//@   on complete@obsB(ctx) when status + 1 == 5 : emits Complete(ctx) ; post status' == status + 1
+//@   on complete@obsB(ctx) when status + 1 != 5 : emits ; post status' == status + 1
+//@   on next@obsC(ctx, v) when status < 5 && valueA.p.v != nil && valueB.p.v != nil && valueD.p.v != nil && valueE.p.v != nil : emits Next(ctx, fields(deref(valueA.p.v), deref(valueB.p.v), v, deref(valueD.p.v), deref(valueE.p.v)))
+//@   on next@obsC(ctx, v) when status >= 5 || valueA.p.v == nil || valueB.p.v == nil || valueD.p.v == nil || valueE.p.v == nil : emits
+//@   on error@obsC(ctx, err) : emits Error(ctx, err) ; post status' == 6
+//@   on complete@obsC(ctx) when status + 1 == 5 : emits Complete(ctx) ; post status' == status + 1
+//@   on complete@obsC(ctx) when status + 1 != 5 : emits ; post status' == status + 1
+//@   on next@obsD(ctx, v) when status < 5 && valueA.p.v != nil && valueB.p.v != nil && valueC.p.v != nil && valueE.p.v != nil : emits Next(ctx, fields(deref(valueA.p.v), deref(valueB.p.v), deref(valueC.p.v), v, deref(valueE.p.v)))
+//@   on next@obsD(ctx, v) when status >= 5 || valueA.p.v == nil || valueB.p.v == nil || valueC.p.v == nil || valueE.p.v == nil : emits
+//@   on error@obsD(ctx, err) : emits Error(ctx, err) ; post status' == 6
+//@   on complete@obsD(ctx) when status + 1 == 5 : emits Complete(ctx) ; post status' == status + 1
+//@   on complete@obsD(ctx) when status + 1 != 5 : emits ; post status' == status + 1
+//@   on next@obsE(ctx, v) when status < 5 && valueA.p.v != nil && valueB.p.v != nil && valueC.p.v != nil && valueD.p.v != nil : emits Next(ctx, fields(deref(valueA.p.v), deref(valueB.p.v), deref(valueC.p.v), deref(valueD.p.v), v))
+//@   on next@obsE(ctx, v) when status >= 5 || valueA.p.v == nil || valueB.p.v == nil || valueC.p.v == nil || valueD.p.v == nil : emits
+//@   on error@obsE(ctx, err) : emits Error(ctx, err) ; post status' == 6
+//@   on complete@obsE(ctx) when status + 1 == 5 : emits Complete(ctx) ; post status' == status + 1
+//@   on complete@obsE(ctx) when status + 1 != 5 : emits ; post status' == status + 1
